@@ -114,6 +114,8 @@ class ReplList(SyncObjConsumer):
         Remove and return item at position (default last).
         Raises IndexError if list is empty or index is out of range.
         """
+        if position is None:
+            return self.__data.pop()
         return self.__data.pop(position)
 
     @replicated
